@@ -393,6 +393,15 @@ def vec_forms(N, L):
         fs.append(('dot(V*V,dot(dot(V,C3),V))', lambda x: algopy.dot(x * x, algopy.dot(algopy.dot(x, C3), x)) * cvec(2)))
         fs.append(('dot(dot(M,C3),V)', lambda x: algopy.dot(algopy.dot(Mx(x), C3), x * cvec(N))))
         fs.append(('T3*X3', lambda x: X3(x).T * X3(x)))
+        for ax in (0, 1, 2, -1, -3):
+            fs.append(('sum(X3*X3,axis=%d)' % ax, lambda x, ax=ax: algopy.sum(X3(x) * X3(x), axis=ax)))
+        fs.append(('sum(V*V,axis=0)', lambda x: algopy.sum(x * x * cvec(N), axis=0) * cvec(2)))
+        # linear solves with a CONSTANT non-symmetric matrix (reference: the inverse applied to the polynomial right-hand side)
+        Cs = cmat(N, N) + 3.0 * N * np.eye(N)
+        Ci = np.linalg.inv(Cs)
+        # (the library asks for a 2-D right-hand side and refuses vectors explicitly)
+        fs.append(('solve(C,V*V)', (lambda x: algopy.solve(Cs, algopy.reshape(x * x + x[0], (N, 1)))), (lambda x: np.dot(Ci, np.reshape(x * x + x[0], (N, 1))))))
+        fs.append(('solve(C,M)', (lambda x: algopy.solve(Cs, Mx(x))), (lambda x: np.dot(Ci, Mx(x)))))
         fs.append(('transpose(T3)', lambda x: algopy.transpose(X3(x)) * C3))
 
         def own(name, upd, const_first):
